@@ -4,7 +4,7 @@ import DswModel.Lemmas.DeBruijn
 /-! Helper lemmas for `find_vertices` / `connect_valid_graph` (C11). -/
 namespace Dsw
 
-theorem Mask.count_eq_zero_iff (m : Mask) :
+theorem Mask.count_eq_zero_iff_disc (m : Mask) :
     m.count = 0 ↔ ∀ i, i < m.size → m.getD i false = false := by
   unfold Mask.count
   rw [List.length_eq_zero_iff, List.filter_eq_nil_iff]
@@ -18,9 +18,9 @@ theorem Mask.count_eq_zero_iff (m : Mask) :
     have := h i hi
     simpa [Array.getD, hi] using this
 
-theorem Mask.count_pos_iff (m : Mask) :
+theorem Mask.count_pos_iff_disc (m : Mask) :
     0 < m.count ↔ ∃ i, i < m.size ∧ m.getD i false = true := by
-  rw [Nat.pos_iff_ne_zero, Ne, Mask.count_eq_zero_iff]
+  rw [Nat.pos_iff_ne_zero, Ne, Mask.count_eq_zero_iff_disc]
   constructor
   · intro h
     apply Classical.byContradiction
@@ -51,15 +51,15 @@ theorem findVertices_eq (k : Nat) (P : List Char → Bool) :
       if (filterMask k P).count = 0 then .error .valueError else .ok (filterMask k P) := rfl
 
 /-- column of the `j`-th successor. -/
-theorem shift_column (k u j : Nat) (hk : 1 ≤ k) (hj : j < 4) : ((u * 4 + j) % 4 ^ k) % 4 = j := by
+theorem shift_column_disc (k u j : Nat) (hk : 1 ≤ k) (hj : j < 4) : ((u * 4 + j) % 4 ^ k) % 4 = j := by
   obtain ⟨k', rfl⟩ : ∃ k', k = k' + 1 := ⟨k - 1, by omega⟩
   rw [four_pow_succ, shift_mod _ _ _ hj]
   omega
 
-theorem inducedAccessor_size (k : Nat) (m : Mask) : (inducedAccessor k m).size = 4 ^ k := by
+theorem inducedAccessor_size_disc (k : Nat) (m : Mask) : (inducedAccessor k m).size = 4 ^ k := by
   simp [inducedAccessor]
 
-theorem inducedAccessor_ent (k : Nat) (m : Mask) (u j : Nat) (hu : u < 4 ^ k) (hj : j < 4) :
+theorem inducedAccessor_ent_disc (k : Nat) (m : Mask) (u j : Nat) (hu : u < 4 ^ k) (hj : j < 4) :
     (inducedAccessor k m).ent (u : Int) j =
       if m.getD u false = true ∧ m.getD ((u * 4 + j) % 4 ^ k) false = true
       then (((u * 4 + j) % 4 ^ k : Nat) : Int) else -1 := by
